@@ -30,7 +30,8 @@ BOUNDS = {
     'C13': 'all sequences over {connect-ok, connect-fail, close, op} up to length 3 x 9 operations x 2 twins',
     'C14': 'counter start values near 0 and 2^32, 6 consecutive opens; plus the two-thread schedules of C06 (device-side check that no live id is reused)',
     'C15': 'write capacities {1,7,10,24,25,4096,varying} x connect/shell/push x 2 twins',
-    'C16': 'every C01/C07/C08/C09/C10 scenario run through both twins: identical host packet logs, results, exception types',
+    'C16': 'every C01/C03/C05/C07/C08/C09/C10/C11/C12/C13/C15 scenario run through both twins: identical host packet logs, results, exception types; '
+           'plus the loopback scenarios of C18 for both TCP transports',
     'C19': 'exhaustive op sequences up to length 5 over an 11-op alphabet keeping the aliasing cases (ids 0/1/2, wildcards, CLSE), plus random sequences of length 2..7 over a 3x3 id domain, against a reference model',
 }
 
@@ -905,7 +906,7 @@ PROPS = {
 }
 PROPS['C16'] = (c16_params, c16_run)
 # C04's monitor runs inside the scenarios of these properties
-ALSO = {'C04': ['C01', 'C07', 'C08', 'C09', 'C10'], 'C02': ['C01', 'C07'], 'C06': ['C01', 'C19'], 'C14': ['C06']}
+ALSO = {'C04': ['C01', 'C07', 'C08', 'C09', 'C10'], 'C02': ['C01', 'C07'], 'C06': ['C01', 'C19'], 'C14': ['C06'], 'C16': ['C18']}
 
 
 from sim import scenarios_ext      # noqa: E402,F401  (registers C17, C18, C20)
